@@ -199,8 +199,10 @@ class Group:
     def _register(self, gateway: Gateway) -> None:
         assert not hasattr(gateway, "_group")
         assert gateway.id
-        assert gateway.id not in self
-        self._gateways.append(gateway)
+        # check and append atomically w.r.t. allocate_id() and other registrations
+        with self._autoidlock:
+            assert gateway.id not in self
+            self._gateways.append(gateway)
         gateway._group = self
 
     def _unregister(self, gateway: Gateway) -> None:
